@@ -291,3 +291,6 @@ def warmup(n=3):
             pass
     sim.state.reset_exo_globals()
     sim.state.snapshot_base()
+    import sim.seams
+
+    sim.seams.salt_mark_base()
